@@ -37,4 +37,76 @@ def getConn (revs : List Rev) (c : Conns) (fn : String) : Option String × Conns
 def gc (fns : List String) (c : Conns) : Nat × Conns :=
   ((c.filter fun p => !fns.contains p.1).length, c.filter fun p => fns.contains p.1)
 
+/-- getClientConn when its List of FunctionRevisions may fail: a failing List is an error and
+leaves the cache alone -/
+def getConnF (listFails : Bool) (revs : List Rev) (c : Conns) (fn : String) : Option String × Conns :=
+  if listFails then (none, c) else getConn revs c fn
+
+/-- GarbageCollectConnectionsNow when its List of Functions may fail: with an empty cache it
+returns 0 without listing; otherwise a failing List is an error and closes nothing.
+`none` = error. -/
+def gcF (listFails : Bool) (fns : List String) (c : Conns) : Option Nat × Conns :=
+  if c.isEmpty then (some 0, c)
+  else if listFails then (none, c)
+  else (some (gc fns c).1, (gc fns c).2)
+
+/-- PackagedFunctionRunner.RunFunction up to the RPC: the connection is looked up (and cached)
+by `getClientConn`; the request is then sent over it, i.e. to its target. `none` = the lookup
+failed and nothing is sent. -/
+def runPackaged (revs : List Rev) (c : Conns) (fn : String) : Option String × Conns := getConn revs c fn
+
+/-- the harness's function servers: an endpoint `live…` is a listening in-process server (every
+other endpoint is never reachable: the call waits for readiness until its deadline) -/
+def delivered (ep : String) : Option String := if ep.startsWith "live" then some ep else none
+
+/-- `live2` serves only the v1beta1 FunctionRunnerService -/
+def servesOnlyBeta (ep : String) : Bool := ep == "live2"
+
+/-! ### declared call skeletons (regenerated as `Xp.Gen.c04Skel…`, see Xp/Model/C04Compose.lean) -/
+
+/-- PackagedFunctionRunner.RunFunction -/
+def skelPkgRun : List String := [
+  "getClientConn",                        -- getConn
+  "return",                               --   none ⇒ error, nothing is sent
+  "NewBetaFallBackFunctionRunnerServiceClient.RunFunction",   -- not modelled: the gRPC call (the connection IS its target)
+  "NewBetaFallBackFunctionRunnerServiceClient",
+  "return"]
+
+/-- PackagedFunctionRunner.getClientConn -/
+def skelGetClientConn : List String := [
+  "client.List",                          -- revisions labelled with the function's name: r.fn = fn
+  "return",                               -- getConnF true = (none, c)
+  "loop{", "l.Items.GetDesiredState", "}",  -- find? (r.fn = fn ∧ r.active): the FIRST active one
+  "return",                               -- wanted = none: no active revision
+  "return",                               -- wanted = none: empty endpoint
+  "conn.Target", "return",                -- cget c fn = some ep ⇒ (some ep, c)
+  "conn.Target", "return",                --   the same test again under the write lock (one thread here)
+  "conn.Target", "conn.Close", "delete",  -- cerase c fn
+  "loop{", "interceptors.CreateInterceptor", "}",   -- not modelled
+  "grpc.NewClient",                       -- ++ [(fn, ep)]
+  "return",                               -- not modelled: NewClient error
+  "return"]
+
+/-- PackagedFunctionRunner.GarbageCollectConnectionsNow -/
+def skelGcConns : List String := [
+  "len", "return",                        -- gcF: c = [] ⇒ (some 0, []) without listing
+  "client.List",                          -- fns
+  "return",                               -- gcF true = (none, c) for a non-empty cache
+  "loop{", "f.GetName", "}",
+  "loop{", "conns.Close", "delete", "}",  -- filter (fns.contains ·.1), count of the rest
+  "return"]
+
+/-- BetaFallBackFunctionRunnerServiceClient.RunFunction: not modelled (transport); declared so that
+the order v1 first → only Unimplemented falls back → toBeta → v1beta1 → fromBeta stays pinned
+beside the round-trip test monitor `C04:beta-reencoding-lossy` -/
+def skelBeta : List String := [
+  "fnv1.NewFunctionRunnerServiceClient.RunFunction", "return",
+  "status.Code", "return",
+  "toBeta", "return",
+  "fnv1beta1.NewFunctionRunnerServiceClient.RunFunction", "return",
+  "fromBeta", "return"]
+
+/-- toBeta / fromBeta -/
+def skelReencode : List String := ["proto.Marshal", "proto.Unmarshal"]
+
 end Xp.C04Conn
